@@ -2,9 +2,11 @@
    AND by the verifier itself (the F1 forgery family); an accepted proof pins its challenge to the hash of the recomputed
    commitments and satisfies the pairing equation with non-identity points (the starting point of the extractor).
    Statement binding: one proof accepted for two statements CONSTRUCTS an explicit collision of the challenge hash unless the
-   statements agree (reduction, no injectivity hypothesis).  Bit flips of the proof itself and the special-soundness extractor:
-   correspondence + sweep. *)
-From ZK Require Import Laws BaseLemmas ModelLemmas SignProofs Codec Soundness UpdateProofs Separation Binding.
+   statements agree (reduction, no injectivity hypothesis).  Special soundness (proof_special_soundness): two accepted transcripts
+   with the same commitments and different challenges determine e, r1, r3 and the hidden scalars, by explicit formulas, with
+   Bbar = D r1 - Abar e, B = D r3 and (sk + e) r3 Abar = r1 B -- a signature on the disclosed + extracted messages.
+   Bit flips of the proof itself: correspondence + sweep. *)
+From ZK Require Import Laws BaseLemmas ModelLemmas SignProofs Codec Soundness UpdateProofs Separation Binding Extractor.
 
 Theorem C04_core_proof_verify_degenerate :
   forall (E : env) (LW : Laws E) pk p g header ph dm di api,
@@ -110,3 +112,55 @@ Check (C04_challenge_octets_inj :
   di = di' /\ dm = dm' /\ i_domain E ir = i_domain E ir' /\ option_default [] ph = option_default [] ph' /\
   i_T1 E ir = i_T1 E ir' /\ i_T2 E ir = i_T2 E ir').
 Print Assumptions C04_challenge_octets_inj.
+
+(* special soundness: the extractor *)
+Theorem C04_proof_special_soundness :
+  forall (E : env) (LW : Laws E) pk p p' g header dm di api ir ir',
+  proof_verify_init E pk p g header dm di api = Ok ir ->
+  proof_verify_init E pk p' g header dm di api = Ok ir' ->
+  p_Abar E p = p_Abar E p' -> p_Bbar E p = p_Bbar E p' -> p_D E p = p_D E p' ->
+  length (p_m_cap E p) = length (p_m_cap E p') ->
+  i_T1 E ir = i_T1 E ir' -> i_T2 E ir = i_T2 E ir' ->
+  p_chal E p <> p_chal E p' ->
+  fmul (SO E) (dl1 E LW (p_Abar E p)) (dl2 E LW pk) = dl1 E LW (p_Bbar E p) ->
+  let k := fsub (SO E) (p_chal E p) (p_chal E p') in
+  let e := fdiv (SO E) (fsub (SO E) (p_e_cap E p) (p_e_cap E p')) k in
+  let r1 := fopp (SO E) (fdiv (SO E) (fsub (SO E) (p_r1_cap E p) (p_r1_cap E p')) k) in
+  let r3 := fopp (SO E) (fdiv (SO E) (fsub (SO E) (p_r3_cap E p) (p_r3_cap E p')) k) in
+  let mu := quot E (p_m_cap E p) (p_m_cap E p') k in
+  exists Q1 Hd Hu,
+    index (g_values E g) 0 = Ok Q1 /\
+    get_at (skipn 1 (g_values E g)) di = Ok Hd /\
+    (exists ui, slice (remaining (length (p_m_cap E p) + length di) di) 0 (length (p_m_cap E p)) = Ok ui /\
+                get_at (skipn 1 (g_values E g)) ui = Ok Hu) /\
+    length mu = length (p_m_cap E p) /\
+    let dB := fadd (SO E) (dl1 E LW (msm_acc E (g1_add (PR E) (g_p1 E g) (g1_mul (PR E) (i_domain E ir) Q1)) Hd dm)) (dot E LW Hu mu) in
+    dl1 E LW (p_Bbar E p) = fsub (SO E) (fmul (SO E) r1 (dl1 E LW (p_D E p))) (fmul (SO E) e (dl1 E LW (p_Abar E p))) /\
+    dB = fmul (SO E) r3 (dl1 E LW (p_D E p)) /\
+    fmul (SO E) (fadd (SO E) (dl2 E LW pk) e) (fmul (SO E) r3 (dl1 E LW (p_Abar E p))) = fmul (SO E) r1 dB.
+Proof. exact proof_special_soundness. Qed.
+Check (C04_proof_special_soundness :
+  forall (E : env) (LW : Laws E) pk p p' g header dm di api ir ir',
+  proof_verify_init E pk p g header dm di api = Ok ir ->
+  proof_verify_init E pk p' g header dm di api = Ok ir' ->
+  p_Abar E p = p_Abar E p' -> p_Bbar E p = p_Bbar E p' -> p_D E p = p_D E p' ->
+  length (p_m_cap E p) = length (p_m_cap E p') ->
+  i_T1 E ir = i_T1 E ir' -> i_T2 E ir = i_T2 E ir' ->
+  p_chal E p <> p_chal E p' ->
+  fmul (SO E) (dl1 E LW (p_Abar E p)) (dl2 E LW pk) = dl1 E LW (p_Bbar E p) ->
+  let k := fsub (SO E) (p_chal E p) (p_chal E p') in
+  let e := fdiv (SO E) (fsub (SO E) (p_e_cap E p) (p_e_cap E p')) k in
+  let r1 := fopp (SO E) (fdiv (SO E) (fsub (SO E) (p_r1_cap E p) (p_r1_cap E p')) k) in
+  let r3 := fopp (SO E) (fdiv (SO E) (fsub (SO E) (p_r3_cap E p) (p_r3_cap E p')) k) in
+  let mu := quot E (p_m_cap E p) (p_m_cap E p') k in
+  exists Q1 Hd Hu,
+    index (g_values E g) 0 = Ok Q1 /\
+    get_at (skipn 1 (g_values E g)) di = Ok Hd /\
+    (exists ui, slice (remaining (length (p_m_cap E p) + length di) di) 0 (length (p_m_cap E p)) = Ok ui /\
+                get_at (skipn 1 (g_values E g)) ui = Ok Hu) /\
+    length mu = length (p_m_cap E p) /\
+    let dB := fadd (SO E) (dl1 E LW (msm_acc E (g1_add (PR E) (g_p1 E g) (g1_mul (PR E) (i_domain E ir) Q1)) Hd dm)) (dot E LW Hu mu) in
+    dl1 E LW (p_Bbar E p) = fsub (SO E) (fmul (SO E) r1 (dl1 E LW (p_D E p))) (fmul (SO E) e (dl1 E LW (p_Abar E p))) /\
+    dB = fmul (SO E) r3 (dl1 E LW (p_D E p)) /\
+    fmul (SO E) (fadd (SO E) (dl2 E LW pk) e) (fmul (SO E) r3 (dl1 E LW (p_Abar E p))) = fmul (SO E) r1 dB).
+Print Assumptions C04_proof_special_soundness.
